@@ -9,8 +9,8 @@ for id in "$@"; do
   [ -f "$src/patch.diff" ] || { echo "== $id-$r: no patch.diff in $src"; continue; }
   mkdir -p "$dst"; cp "$src/patch.diff" "$src/meta.json" "$dst/" 2>/dev/null; cp "$src"/demo.* "$dst/" 2>/dev/null
   echo "== $id-$r: $(python3 -c "import json,sys; print(json.load(open('$dst/meta.json')).get('summary','')[:300])" 2>/dev/null)"
-  if [ -f "$dst/demo.rs" ]; then tools/verify_seed.sh "$dst" | tail -3 | cut -c1-110; fi
+  if [ -f "$dst/demo.rs" ] || [ -f "$dst/demo.py" ]; then tools/verify_seed.sh "$dst" | tail -4 | cut -c1-110; fi
   extra="C01"; [ "$id" = "C01" ] && extra="C02"
   tools/try_seed.sh "$dst" quick "$id" $extra | cut -c1-330
 done
-rm -rf /tmp/wt/verify_target
+rm -rf /tmp/wt/verify_target /tmp/wt/verify_target_py /tmp/wt/verify_pymod
